@@ -105,6 +105,58 @@ def h_descriptions(env, N, prefix):
                                  AND([arr_eq(r6.value.gs[0], g_want), arr_eq(r6.value.gs[1], g_want), eq(r6.value.ps[0], p_want), eq(r6.value.ps[1], 0)])))
 
 
+def h_paulis_containers(env, N, form, L=3):
+    """paulis(...) of L descriptions handed over in every accepted container form (separate arguments, list, tuple,
+    generator expression, one-element generator, numpy array of code rows, generator of Pauli objects, dicts with N):
+    a list of exactly L operators in the given order"""
+    M = Mods(env)
+    if form == 'generator1':
+        L = 1
+    # the middle description is symbolic, the others are fixed and pairwise different (the container logic does not look
+    # at contents; one symbolic entry keeps the letter-code forking at 4^N * 2 paths)
+    sym_row = 1 if L > 1 else 0
+    c_sym = env.ints('codes', (N,), 0, 3)
+    s_sym = env.ints('minus', (1,), 0, 1)[0]
+    codes = [[(1 + j + k) % 4 for k in range(N)] for j in range(L)]
+    signs = [j % 2 for j in range(L)]
+    codes[sym_row] = [c_sym[k] for k in range(N)]
+    signs[sym_row] = s_sym
+    want_g = [oarr([v for k in range(N) for v in (ite(b_or(eq(codes[j][k], 1), eq(codes[j][k], 2)), 1, 0), ite(b_or(eq(codes[j][k], 2), eq(codes[j][k], 3)), 1, 0))]) for j in range(L)]
+    plain = form in ('nparray', 'dicts')
+    want_p = [0 if plain else 2 * signs[j] for j in range(L)]
+    # description j: token list [4|5 (sign token), codes...] -- symbolic, no string building needed
+    desc = [[codes[j][k] for k in range(N)] + ([] if plain else [4 + signs[j]]) for j in range(L)]
+    if form == 'varargs':
+        call = lambda: M.pa.paulis(*desc)
+    elif form == 'list':
+        call = lambda: M.pa.paulis(list(desc))
+    elif form == 'tuple':
+        call = lambda: M.pa.paulis(tuple(desc))
+    elif form in ('generator', 'generator1'):
+        call = lambda: M.pa.paulis(d for d in desc)
+    elif form == 'generator_of_pauli':
+        call = lambda: M.pa.paulis(M.pa.pauli(d) for d in desc)
+    elif form == 'list_of_pauli':
+        call = lambda: M.pa.paulis([M.pa.pauli(d) for d in desc])
+    elif form == 'nparray':
+        call = lambda: M.pa.paulis(env.np.array([[codes[j][k] for k in range(N)] for j in range(L)]) if env.symbolic else np.array([[int(codes[j][k]) for k in range(N)] for j in range(L)]))
+    elif form == 'dicts':
+        call = lambda: M.pa.paulis([{k: codes[j][k] for k in range(N)} for j in range(L)], N=N)
+    elif form == 'paulilist':
+        src = M.pa.paulis(*desc)
+        call = lambda: M.pa.paulis(src)
+    res = env.run(call)
+    env.goal('no_exception', b_not(res.raised))
+    if res.value is None:
+        return
+    lst = res.value
+    ok = isinstance(lst, M.pa.PauliList) and tuple(np.shape(lst.gs)) == (L, 2 * N) and tuple(np.shape(lst.ps)) == (L,)
+    env.goal('length_and_shape', ok)
+    if ok:
+        for j in range(L):
+            env.goal('row%d' % j, b_and(arr_eq(lst.gs[j], want_g[j]), eq(lst.ps[j], want_p[j])))
+
+
 def h_phase_arith(env, N, kind):
     M = Mods(env)
     if kind == 'Pauli':
@@ -234,6 +286,8 @@ def jobs(tier):
             J.append(dict(harness=('c20', 'h_descriptions'), params=dict(N=N, prefix=prefix), max_paths=30000, timeout_s=60))
         for form in ('string', 'list', 'array', 'dict'):
             J.append(dict(harness=('c20', 'h_parse_history'), params=dict(N=N, form=form), max_paths=30000, timeout_s=60))
+        for form in ('varargs', 'list', 'tuple', 'generator', 'generator1', 'generator_of_pauli', 'list_of_pauli', 'nparray', 'dicts', 'paulilist'):
+            J.append(dict(harness=('c20', 'h_paulis_containers'), params=dict(N=N, form=form), max_paths=30000, timeout_s=60))
         for kind in ('Pauli', 'PauliList'):
             J.append(dict(harness=('c20', 'h_phase_arith'), params=dict(N=N, kind=kind)))
         for L in (1, 2, 3):
